@@ -831,8 +831,11 @@ where
     S::Future: Send + 'static,
     S::Error: Send + 'static,
     RB: Body<Data = Bytes> + Send + 'static,
+    RB::Error: Into<Box<dyn std::error::Error + Send + Sync>>,
 {
-    type Response = http::Response<Rechunk<RB>>;
+    // boxed into tonic's own body type (which has the `Default` the generated `with_interceptor`
+    // constructor asks of a transport's response body)
+    type Response = http::Response<tonic::body::Body>;
     type Error = S::Error;
     type Future = Pin<Box<dyn Future<Output = Result<Self::Response, S::Error>> + Send>>;
     fn poll_ready(&mut self, cx: &mut Context<'_>) -> Poll<Result<(), S::Error>> {
@@ -885,7 +888,8 @@ where
             rb.trailers_tap = Some(ttap);
             rb.data_tap = Some(rbtap);
             rb.probe_after_end = probe;
-            Ok(http::Response::from_parts(parts, rb))
+            Ok(http::Response::from_parts(parts, tonic::body::Body::new(rb)))
         })
     }
 }
+
